@@ -26,7 +26,7 @@ func (c13) ID() string { return "C13" }
 
 func (c13) Plan(tier string) fw.Plan {
 	p := fw.Plan{
-		Batches: 8, Cases: c13drv.TypeSystemsPerBatch(tier), TimeoutSec: 1500, Level: "exploration",
+		Batches: 16, Cases: c13drv.TypeSystemsPerBatch(tier), TimeoutSec: 1500, Level: "exploration",
 		Rule:        "per batch: draw type systems inside the generator's feature set (scalars, link, struct map/tuple/stringjoin with optional/nullable/renames, typed maps incl. stringjoin keys and nullable values, lists, unions keyed/kinded/stringprefix), generate one Go package per type system with schema/gen/go FROM THE WORKING TREE into a scratch module outside /repo and /verif, and go build it together with a driver — a generation panic or a compile error is a violation (replay = the type system and the compiler output). The compiled driver rebuilds the same type systems, binds them with bindnode too, and for every input (30 (quick) / 80 (thorough) conforming values per type plus 8 random local mutations each, at type and representation level) compares both engines in lock-step: accept/reject, type-level read-out, representation read-out, dag-cbor and dag-json bytes; the generated engine is additionally checked against the reference with the C08 and C09 monitors. The scratch module is removed after each batch. Non-trivial: every driven value; distinct by (type system, type, value) hash.",
 		Assumptions: []string{"the Go compiler is the judge of 'compiles'", "reference model (lib/ref/schema) as in C08/C09"},
 		MinEvents:   []string{"packages_generated", "packages_compiled", "type_systems_driven", "types_driven", "lockstep_inputs", "lockstep_accepted_by_both", "lockstep_bytes_compared", "mutations_driven", "conformance_feeds", "view_readouts"},
